@@ -6,7 +6,10 @@
 (*   reset  - the configuration (and where/how it is presented)            *)
 (*   load   - one fresh LoadWithEnv: did it succeed                        *)
 (*   lookup - one EntryForRegistry(host): entry fields or failure class,   *)
-(*            error text, and the helper invocations it caused             *)
+(*            error text, and the helper invocations it caused (seen by    *)
+(*            the HelperRunner wrapped around the real one, or - when      *)
+(*            LoadWithEnv made its default runner - noted by the helper    *)
+(*            programs themselves: a missing program then notes nothing)   *)
 (* A lookup is accepted iff it is exactly Lookup(cfg, host) - whichever    *)
 (* decode it follows and whatever was asked before - and every failing     *)
 (* lookup of one host reports the same error text in all decodes of the    *)
@@ -58,7 +61,8 @@ LookupOkay(e) ==
      IN /\ e.ok = r.ok
         /\ e.class = r.class
         /\ e.refresh = r.refresh /\ e.access = r.access /\ e.user = r.user /\ e.pass = r.pass
-        /\ e.calls = r.calls
+        /\ e.calls = IF e.runner = "default" THEN SelectSeq(r.calls, LAMBDA c : cfg.helpers[c.helper].kind # "nobinary")
+                      ELSE r.calls
   /\ (TextJudged(e) /\ e.host \in DOMAIN msgs) => msgs[e.host] = e.msg
 LookupStep(e) ==
   /\ msgs' = IF TextJudged(e) THEN (e.host :> e.msg) @@ msgs ELSE msgs
